@@ -1096,6 +1096,9 @@ func exec(line string) zv.Out {
 	if f[1] == "hsj" {
 		return execJunk(f)
 	}
+	if f[1] == "sched" {
+		return execSched(f)
+	}
 	return execMsg(f)
 }
 
